@@ -102,17 +102,22 @@ def value_st(draw, target, other_names, allow_poly=True):
 def large_carrier_case(draw):
     """Inexact coefficients, integer arguments whose powers leave the 64 bit integers: the value is a float."""
     names = draw(gen.names_st(max_size=2))
-    desc = draw(gen.poly_desc(names=names, kind=draw(st.sampled_from(["f", "f", "c"])), max_terms=3, max_exp=3,
-                              max_ndim=1))
+    kind = draw(st.sampled_from(["f", "f", "c", "i", "i"]))
+    if kind == "i" and len(names) < 2:
+        names = ["q0", "q1"]  # (integer coefficients: the float comes in through another argument)
+    desc = draw(gen.poly_desc(names=names, kind=kind, max_terms=3, max_exp=3, max_ndim=1))
     # make sure one term has a high power of the first indeterminate
     size = gen.size_of(tuple(desc["shape"]))
     row = [draw(st.integers(5, 9))] + [0] * (len(names) - 1)
     if all(list(t[0]) != row for t in desc["terms"]):
-        c = [2] * size if desc["kind"] == "f" else [[2, 0]] * size
+        c = [[2, 0]] * size if desc["kind"] == "c" else [2] * size
         desc["terms"] = desc["terms"] + [[row, c]]
     spec = []
     for i, name in enumerate(names):
         big = draw(st.sampled_from([10 ** 4, -10 ** 4, 70000, 10 ** 5, -3 * 10 ** 5, 2 ** 20])) if i == 0 else draw(st.integers(-3, 3))
+        if i == 1 and kind == "i":
+            spec.append({"how": "kw", "val": {"t": "pyfloat", "v": draw(st.sampled_from([0.5, -1.25, 2.0]))}})
+            continue
         t = draw(st.sampled_from(["pyint", "np", "np", "array"]))
         if t == "pyint":
             val = {"t": "pyint", "v": big}
@@ -293,7 +298,8 @@ def check_case(case, ctx):
     # narrow *float* carriers keep small dyadic values (their powers are computed in that width)
     # (a polynomial with inexact coefficients evaluates to floats: integer carriers of large values must then
     # not wrap around on the way, so those cases stay in)
-    float_result = case["poly"]["kind"] in ("f", "c") and full_numeric
+    float_result = full_numeric and (case["poly"]["kind"] in ("f", "c") or any(
+        s["val"] and s["val"]["t"] in ("pyfloat", "pycomplex") for s in case["spec"]))
     if bound >= (1e150 if float_result else 2 ** 62):
         ctx.discard_case("magnitude-bound")
         return []
